@@ -397,7 +397,20 @@ fn eval_dna(dna_bytes: &[u8], ctx: &mut Ctx) -> Result<(), (Failure, Value)> {
     }
     // 3. the no-dictionary vector
     {
-        let v = no_dictionary_vector([2u32, 3][vd.below(2)], vd.below(3) as u32);
+        let mut v = no_dictionary_vector([2u32, 3][vd.below(2)], vd.below(3) as u32);
+        if vd.chance(50) {
+            // a no-dictionary STRATEGY on top of the base vector's dictionary fields (hash, chain,
+            // window) and arbitrary flags: every field is inside its range, the combination is
+            // one the estimator would not choose
+            let strategy = v[P_STRATEGY];
+            let huff = v[P_HUFF_STRATEGY];
+            v = base.clone();
+            v[P_STRATEGY] = strategy;
+            v[P_HUFF_STRATEGY] = huff;
+            for f in [P_ZLIB_COMPATIBLE, P_VERY_FAR_MATCHES, P_MATCHES_TO_START] {
+                v[f] = vd.below(2) as u32;
+            }
+        }
         let doc = mk_doc(&case.bytes, &v, "no-dictionary");
         ctx.set_inflight(&doc);
         check(&case.bytes, &v, est.as_deref(), "no-dictionary", ctx).map_err(|f| (f, doc))?;
